@@ -399,8 +399,11 @@ def coq_case(idx, case, got):
     loader = "pobj_loader" if X == "PObj" else "file_loader"
     ctor = f"(chk_ctor ({loader} (fun ev => gen_apply_kwargs_{X} ev (VDict k{idx}_d)) k{idx}_e) {coq_res(got['ctor'], True)})"
     meth = f"(chk (method_path gen_arity_{X} gen_method_{X} k{idx}_d k{idx}_e) {coq_res(got['meth'])})"
-    if any(k not in KEYS[X] for k, _ in case["filters"]):
-        meth = "0%nat"      # a name the class has no filter method for: there is no method path to compare
+    if any(k not in KEYS[X] or (k == "spacetime_cut" and not (a["t"] == "list" and len(a["v"]) >= 2))
+           for k, a in case["filters"]):
+        # a name the class has no filter method for, or a spacetime_cut value that is not the documented
+        # [dim, limits] list: there is no method call this entry stands for, nothing to compare
+        meth = "0%nat"
     ev0 = f"[({evs[0]} : list pobs)]" if evs else "([[]] : list (list pobs))"
     chain = f"(chk (gen_apply_kwargs_{X} {ev0} (VDict k{idx}_d)) {coq_res(got['chain'])})"
     return defs, f"[{ctor}; {meth}; {chain}]"
